@@ -36,6 +36,8 @@ type variant struct {
 	mem  string
 	in   *input
 	key  string // content hash of (network, state bytes, block bytes, supplement bytes): the "case" of Purity
+	// the copy was obtained from the original by a way that must preserve it, and does not have its content
+	differs bool
 }
 
 // Event is one line of the trace.
@@ -64,6 +66,7 @@ type callInfo struct {
 	cell    int
 	updKind string
 	updCell int
+	differs bool // the copy the call ran on does not have the content of the original it was obtained from
 }
 
 type caseInfo struct {
@@ -589,11 +592,15 @@ type caseStats struct {
 	ownKey    int // per-transaction path logged under its own key (block-level checks fail)
 	panics    map[string]int
 	applyNote string
+	differs   map[string]int  // kind -> copies of a block the specification accepts that do not have the original's content
+	refs      map[string]bool // classes of repeated references to one accumulator element in the block (decoded copy built)
+	partial   int             // v1 signatures with field-by-field coverage in the block
 }
 
 // runCase runs every entry point on every copy of the inputs from g goroutines and logs the events.
 func runCase(rec *recorder, in *input, expectAccept bool, g int, rng *rand.Rand, ci *caseInfo) (st caseStats, err error) {
-	st.variants, st.sameKey, st.panics = map[string]int{}, map[string]int{}, map[string]int{}
+	st.variants, st.sameKey, st.panics, st.differs = map[string]int{}, map[string]int{}, map[string]int{}, map[string]int{}
+	st.partial = partialSigs(&in.B)
 	orig := &variant{kind: "orig", mem: rec.newMem(), in: in}
 	// the original is looked at before anything of the library touches it
 	d0 := orig.digest()
@@ -605,6 +612,10 @@ func runCase(rec *recorder, in *input, expectAccept bool, g int, rng *rand.Rand,
 	add := func(kind string, vin *input, e error) {
 		if e != nil || vin == nil {
 			st.variants[kind+":unavailable"]++
+			// a block the specification accepts must survive every way of obtaining it
+			if expectAccept && kind != "blocklevel" {
+				st.differs[kind+":unavailable"]++
+			}
 			return
 		}
 		v := &variant{kind: kind, mem: rec.newMem(), in: vin}
@@ -618,11 +629,20 @@ func runCase(rec *recorder, in *input, expectAccept bool, g int, rng *rand.Rand,
 		st.variants[kind]++
 		if k == orig.key {
 			st.sameKey[kind]++
+		} else if expectAccept && kind != "blocklevel" {
+			// "obtained how" is not part of the key: the copy was obtained from a block the specification accepts by a way
+			// that must preserve it (codec round trip, copy operation), so it is filed under the key of the original and
+			// whatever is computed from it must be what is computed from the original
+			v.key, v.differs = orig.key, true
+			st.differs[kind]++
 		}
 		vs = append(vs, v)
 	}
 	dec, e1 := mkDecoded(in)
 	add("decoded", dec, e1)
+	if expectAccept && e1 == nil {
+		st.refs = refClasses(&in.B)
+	}
 	add("shared", mkShared(in), nil)
 	add("copied", mkCopied(in), nil)
 	js, e2 := mkJSON(in)
@@ -649,7 +669,8 @@ func runCase(rec *recorder, in *input, expectAccept bool, g int, rng *rand.Rand,
 			reps = 2 // the same function twice on the same memory
 		}
 		for r := 0; r < reps; r++ {
-			tasks = append(tasks, task{"validate", v, doValidate}, task{"txnpath", v, doTxnPath}, task{"elements", v, doElements}, task{"encode", v, doEncode})
+			tasks = append(tasks, task{"validate", v, doValidate}, task{"txnpath", v, doTxnPath}, task{"elements", v, doElements}, task{"encode", v, doEncode},
+				task{"hashes", v, func(in *input) outcome { return doHashes(in, true) }})
 			if v.kind == "blocklevel" {
 				tasks = append(tasks, task{"apply-invalid", v, doApply})
 				continue
@@ -680,7 +701,7 @@ func runCase(rec *recorder, in *input, expectAccept bool, g int, rng *rand.Rand,
 				mu.Unlock()
 			}
 		}
-		info := &callInfo{cs: ci, kind: t.v.kind, fn: t.fn}
+		info := &callInfo{cs: ci, kind: t.v.kind, fn: t.fn, differs: t.v.differs}
 		id := int(rec.nextID.Add(1))
 		rec.add(Event{Ev: "B", ID: id, Fn: fn, Case: t.v.key, Mem: t.v.mem, D: t.v.digest(), call: info})
 		o := t.do(t.v.in)
@@ -699,6 +720,9 @@ func runCase(rec *recorder, in *input, expectAccept bool, g int, rng *rand.Rand,
 		}
 		mu.Unlock()
 	}
+	// before the concurrent phase every pooled hashing entry point is called once, sequentially (a pool that one call
+	// leaves damaged shows in the concurrent calls that follow)
+	run(task{"hashes", orig, func(in *input) outcome { return doHashes(in, false) }})
 	if g <= 1 {
 		for _, t := range tasks {
 			run(t)
